@@ -166,3 +166,25 @@ func (f *flowFront) probe(src string, before int) (facts []*a.Expr, ok bool) {
 	}
 	return append([]*a.Expr(nil), ce.Facts...), true
 }
+
+
+// checkKeepAST is check, but also returns the (type-checked up to the error) AST when
+// the checker fails.
+func (f *flowFront) checkKeepAST(src string) (ck *flowChecked, err error) {
+	defer func() {
+		if e := recover(); e != nil {
+			ck, err = nil, fmt.Errorf("check: internal error: front end panicked: %v", e)
+		}
+	}()
+	f.uses++
+	tokens, _, err := t.Tokenize(f.tm, flowSrcName, []byte(src))
+	if err != nil {
+		return nil, err
+	}
+	file, err := parse.Parse(f.tm, flowSrcName, tokens, nil)
+	if err != nil {
+		return nil, err
+	}
+	_, err = f.base.Check([]*a.File{file}, nil)
+	return &flowChecked{f.tm, file}, err
+}
